@@ -17,6 +17,7 @@ package main
 //     WARNING: DATA RACE blocks are counted from GORACE log files, not from the exit code.
 
 import (
+	"container/list"
 	"crypto/sha1"
 	"encoding/hex"
 	"encoding/json"
@@ -138,6 +139,52 @@ type objCall struct {
 	f    func(l *calendar.Lunar) string
 }
 
+// objAux: auxiliary objects shared by all calls issued on one Lunar (one set per Lunar, created on first use
+// by the harness - never by the library - so that the calls really hit the SAME SolarMonth / SolarWeek / ...).
+type objAux struct {
+	month *calendar.SolarMonth
+	week  *calendar.SolarWeek
+	lyear *calendar.LunarYear
+	lmon  *calendar.LunarMonth
+	ltime *calendar.LunarTime
+	yun   *calendar.Yun
+}
+
+var objAuxMu sync.Mutex
+var objAuxOf = map[*calendar.Lunar]*objAux{}
+
+func auxOf(l *calendar.Lunar) *objAux {
+	objAuxMu.Lock()
+	defer objAuxMu.Unlock()
+	if a, ok := objAuxOf[l]; ok {
+		return a
+	}
+	if len(objAuxOf) > 2000 {
+		objAuxOf = map[*calendar.Lunar]*objAux{}
+	}
+	s := l.GetSolar()
+	other := calendar.NewSolar(s.GetYear(), s.GetMonth(), s.GetDay(), s.GetHour(), s.GetMinute(), s.GetSecond()).GetLunar()
+	a := &objAux{
+		month: calendar.NewSolarMonthFromYm(s.GetYear(), s.GetMonth()),
+		week:  calendar.NewSolarWeekFromYmd(s.GetYear(), s.GetMonth(), s.GetDay(), s.GetDay()%7),
+		lyear: calendar.NewLunarYear(l.GetYear()),
+		lmon:  calendar.NewLunarMonthFromYm(l.GetYear(), l.GetMonth()),
+		ltime: calendar.NewLunarTime(l.GetYear(), l.GetMonth(), l.GetDay(), s.GetHour(), s.GetMinute(), s.GetSecond()),
+		yun:   calendar.NewYun(other.GetEightChar(), s.GetDay()%2, 1+s.GetMinute()%2),
+	}
+	objAuxOf[l] = a
+	return a
+}
+
+func weeksStr(l *list.List) string {
+	s := ""
+	for e := l.Front(); e != nil; e = e.Next() {
+		wk := e.Value.(*calendar.SolarWeek)
+		s += wk.GetFirstDay().ToYmd() + fmt.Sprint(wk.GetIndex()) + ","
+	}
+	return s
+}
+
 func yunStr(y *calendar.Yun) string {
 	s := fmt.Sprint(y.IsForward(), y.GetStartYear(), y.GetStartMonth(), y.GetStartDay(), y.GetStartHour(), y.GetStartSolar().ToYmdHms())
 	for _, d := range y.GetDaYun() {
@@ -160,6 +207,46 @@ var c09ObjCalls = func() []objCall {
 		{"GetNextJieByWholeDay(true)", func(l *calendar.Lunar) string { return fmt.Sprint(l.GetNextJieByWholeDay(true), l.GetNextJieByWholeDay(true).GetSolar().ToYmdHms()) }},
 		{"GetPrevQiByWholeDay(false)", func(l *calendar.Lunar) string { return fmt.Sprint(l.GetPrevQiByWholeDay(false), l.GetPrevQiByWholeDay(false).GetSolar().ToYmdHms()) }},
 		{"Solar.Next(5,true)", func(l *calendar.Lunar) string { return l.GetSolar().Next(5, true).ToYmdHms() }},
+	}
+	// parameterised accessors of the auxiliary objects (one shared SolarMonth, SolarWeek, LunarYear, LunarMonth, LunarTime, Yun)
+	for s := 0; s < 7; s++ {
+		s := s
+		cs = append(cs, objCall{fmt.Sprintf("SolarMonth.GetWeeks(%d)", s), func(l *calendar.Lunar) string { return weeksStr(auxOf(l).month.GetWeeks(s)) }})
+	}
+	for _, n := range []int{1, -1, 5, -7} {
+		n := n
+		cs = append(cs,
+			objCall{fmt.Sprintf("SolarWeek.Next(%d,true)", n), func(l *calendar.Lunar) string { return auxOf(l).week.Next(n, true).String() }},
+			objCall{fmt.Sprintf("SolarWeek.Next(%d,false)", n), func(l *calendar.Lunar) string { return auxOf(l).week.Next(n, false).String() }},
+			objCall{fmt.Sprintf("SolarMonth.Next(%d)", n), func(l *calendar.Lunar) string { return auxOf(l).month.Next(n).String() }},
+			objCall{fmt.Sprintf("LunarMonth.Next(%d)", n), func(l *calendar.Lunar) string { return fmt.Sprint(auxOf(l).lmon.Next(n)) }},
+			objCall{fmt.Sprintf("LunarYear.Next(%d)", n), func(l *calendar.Lunar) string { return fmt.Sprint(auxOf(l).lyear.Next(n).GetGanZhi(), auxOf(l).lyear.Next(n).GetDayCount()) }})
+	}
+	cs = append(cs,
+		objCall{"accessors(SolarWeek)", func(l *calendar.Lunar) string { return digest1(auxOf(l).week) }},
+		objCall{"accessors(LunarYear)", func(l *calendar.Lunar) string { return digest1(auxOf(l).lyear) }},
+		objCall{"accessors(LunarMonth)", func(l *calendar.Lunar) string { return digest1(auxOf(l).lmon) }},
+		objCall{"accessors(LunarTime)", func(l *calendar.Lunar) string { return digest1(auxOf(l).ltime) }},
+		objCall{"accessors(Yun)", func(l *calendar.Lunar) string { return digest1(auxOf(l).yun) }},
+		objCall{"LunarYear.GetMonth(1)", func(l *calendar.Lunar) string { return fmt.Sprint(auxOf(l).lyear.GetMonth(1)) }},
+		objCall{"LunarYear.GetMonth(-leap)", func(l *calendar.Lunar) string { return fmt.Sprint(auxOf(l).lyear.GetMonth(-auxOf(l).lyear.GetLeapMonth())) }},
+		objCall{"LunarYear.GetMonthsInYear", func(l *calendar.Lunar) string { return fmt.Sprint(listStrings(auxOf(l).lyear.GetMonthsInYear())) }})
+	for k := 1; k <= 2; k++ {
+		k := k
+		cs = append(cs,
+			objCall{fmt.Sprintf("LunarYear.GetPositionFuBySect(%d)", k), func(l *calendar.Lunar) string { return auxOf(l).lyear.GetPositionFuBySect(k) }},
+			objCall{fmt.Sprintf("LunarMonth.GetPositionFuBySect(%d)", k), func(l *calendar.Lunar) string { return auxOf(l).lmon.GetPositionFuBySect(k) }},
+			objCall{fmt.Sprintf("LunarTime.GetPositionFuBySect(%d)", k), func(l *calendar.Lunar) string { return auxOf(l).ltime.GetPositionFuBySect(k) }})
+	}
+	for _, n := range []int{1, 4, 12} {
+		n := n
+		cs = append(cs, objCall{fmt.Sprintf("Yun.GetDaYunBy(%d)+LiuNianBy", n), func(l *calendar.Lunar) string {
+			s := ""
+			for _, d := range auxOf(l).yun.GetDaYunBy(n) {
+				s += d.GetGanZhi() + fmt.Sprint(d.GetStartYear(), len(d.GetLiuNianBy(n)), len(d.GetXiaoYunBy(n+1)))
+			}
+			return s
+		}})
 	}
 	for g := 0; g <= 1; g++ {
 		for sect := 1; sect <= 2; sect++ {
